@@ -17,8 +17,7 @@ theorem C10_exit_zero_implies_C01 (cfg : Cfg) (hnd : cfg.dryRun = false) (flt : 
     (hino : cfg.hardlinks = true → InoConsistent scan)
     (hok : (runF cfg flt scan dst n).exit = 0) :
     ∀ e ∈ scanFilter cfg scan,
-      (e.kind = .dir → e.rel ≠ [] → (dst.get? e.rel = none ∨ dst.get? e.rel = some .dir) →
-        (runF cfg flt scan dst n).dst.get? e.rel = some .dir) ∧
+      (e.kind = .dir → e.rel ≠ [] → (runF cfg flt scan dst n).dst.get? e.rel = some .dir) ∧
       (∀ m k, e.kind = .file m k → ∃ d, (runF cfg flt scan dst n).dst.get? e.rel = some (.file d) ∧
         (planFileAct cfg m (dst.get? e.rel) ≠ .skip → C01.Carries cfg d m)) ∧
       (∀ text tgt, e.kind = .symlink text tgt → cfg.links = .preserve →
@@ -92,11 +91,7 @@ theorem fault_contained_agrees (cfg : Cfg) (hnd : cfg.dryRun = false) (flt : Fau
     | some v => cases v <;> first | rfl | exact ⟨rfl, rfl, rfl, rfl⟩
   unfold run
   cases hk : e.kind with
-  | dir =>
-    cases hg : dst.get? e.rel with
-    | none => exact eqCase ((pF.dir_new hk hne hg).trans (p0.dir_new hk hne hg).symm)
-    | some v =>
-      exact eqCase ((pF.dir_old hk (by rw [hg]; simp)).trans (p0.dir_old hk (by rw [hg]; simp)).symm)
+  | dir => exact eqCase ((pF.dir hk hne).trans (p0.dir hk hne).symm)
   | file m k => exact fileCase m (pF.file m k hk) (p0.file m k hk)
   | symlink text tgt =>
     have hkd : e.kind ≠ .dir := by rw [hk]; simp
